@@ -10,8 +10,9 @@ import (
 	"verif/sched"
 	"verif/vlib"
 
-	_ "github.com/lmorg/murex/builtins/pipes/streams"
+	"github.com/lmorg/murex/builtins/pipes/streams"
 	"github.com/lmorg/murex/lang/pipes"
+	"github.com/lmorg/murex/lang/stdio"
 	"verif/shim/vsched"
 )
 
@@ -63,7 +64,7 @@ func (p npSc) scenario() *sched.Scenario {
 				recs = append(recs, r)
 				switch o.kind {
 				case "create":
-					r.ok = n.CreatePipe(o.name, "std", "") == nil
+					r.ok = n.CreatePipe(o.name, "vcounted", "") == nil
 				case "close":
 					r.ok = n.Close(o.name) == nil
 				case "delete":
@@ -86,6 +87,7 @@ func (p npSc) scenario() *sched.Scenario {
 			}
 		}
 		body := func() {
+			closeCounters = closeCounters[:0]
 			n = pipes.NewNamed()
 			if len(p.threads) == 1 {
 				run(0, p.threads[0])
@@ -104,6 +106,28 @@ func (p npSc) scenario() *sched.Scenario {
 		}
 		return &sched.Instance{Body: body, Finish: fin}
 	}}
+}
+
+// countedPipe: a std stream whose Close calls are counted per instance (a registered pipe type, exactly
+// like the test-only types murex's own tests register): the registry must close a pipe at most once.
+type countedPipe struct {
+	*streams.Stdin
+	closes *int
+}
+
+func (p *countedPipe) Close() {
+	*p.closes++
+	p.Stdin.Close()
+}
+
+var closeCounters []*int
+
+func init() {
+	stdio.RegisterPipe("vcounted", func(string) (stdio.Io, error) {
+		n := new(int)
+		closeCounters = append(closeCounters, n)
+		return &countedPipe{Stdin: streams.NewStdin(), closes: n}, nil
+	})
 }
 
 type nstate struct {
@@ -287,6 +311,12 @@ func check(recs []*rec, final map[string]string, e *vsched.Execution) sched.Outc
 	for _, r := range recs {
 		if r.end == 1<<30 {
 			out.Clause, out.Detail = "op-returns", fmt.Sprintf("%v never returned", r.op)
+			return out
+		}
+	}
+	for _, k := range closeCounters {
+		if *k > 1 {
+			out.Clause, out.Detail = "pipe-closed-once", fmt.Sprintf("the registry closed one pipe object %d times (its writer count goes negative)", *k)
 			return out
 		}
 	}
